@@ -16,7 +16,7 @@ from engine import tlc, core, tracecheck
 
 SPEC = "forest"
 ADAPTER = "harness.adapters_x10:Adapter"
-ACTIONS = ["ConnUp", "ConnDown", "LinkEv", "PortEv", "Tick", "Deliver", "Advance"]
+ACTIONS = ["ConnUp", "Disconnect", "ConnDown", "LinkEv", "PortEv", "Tick", "Deliver", "Advance"]
 
 # the universes of specs/forest/MCForest.tla, as the drivers / adapters need them
 UNI = dict(
@@ -186,6 +186,7 @@ def drive(arg):
         conn.add(s)
       elif conn and rnd.random() < 0.6:
         s = rnd.choice(sorted(conn))
+        do("Disconnect", dict(s=s))
         do("ConnDown", dict(s=s))
         conn.discard(s)
     elif r < 0.85 and u["links"]:
@@ -232,19 +233,35 @@ def corrupt(trace, how):
   return None
 
 
-TRACE_GROUPS_QUICK = [("pair", "stable", 1, 1, "Trace_pair_stable.cfg", 60, 90),
-                      ("tri", "unstable", 2, 3, "Trace_tri_unstable.cfg", 40, 110),
-                      ("sq", "stable", 4, 5, "Trace_sq_stable.cfg", 30, 160),
-                      ("sq", "randomized", 4, 5, "Trace_sq_randomized.cfg", 30, 160)]
-TRACE_GROUPS_THOROUGH = [("pair", "stable", 1, 1, "Trace_pair_stable.cfg", 1200, 120),
-                         ("tri", "unstable", 2, 3, "Trace_tri_unstable.cfg", 800, 150),
-                         ("sq", "stable", 4, 5, "Trace_sq_stable.cfg", 600, 220),
-                         ("sq", "randomized", 4, 5, "Trace_sq_randomized.cfg", 600, 220)]
+def G(kind, uni, mode, P, W, cfg, n, steps, lt=0):
+  return dict(kind=kind, uni=uni, mode=mode, P=P, W=W, cfg=cfg, n=n, steps=steps, lt=lt)
+
+
+# syn: seeded random environment with synthetic LinkEvents (props.X10:drive)
+# e2e: the real Discovery produces the LinkEvents from LLDP over simulated wires (harness.x10_e2e:drive_e2e);
+#      lt = discovery's link_timeout in seconds (W = lt / 8 s)
+TRACE_GROUPS_QUICK = [G("syn", "pair", "stable", 1, 1, "Trace_pair_stable.cfg", 60, 90),
+                      G("syn", "tri", "unstable", 2, 3, "Trace_tri_unstable.cfg", 40, 110),
+                      G("syn", "sq", "randomized", 4, 5, "Trace_sq_randomized.cfg", 30, 160),
+                      G("e2e", "sq", "stable", 2, 1, "Trace_sq_e2e_stable.cfg", 16, 150, 4)]
+TRACE_GROUPS_THOROUGH = [G("syn", "pair", "stable", 1, 1, "Trace_pair_stable.cfg", 1200, 120),
+                         G("syn", "tri", "unstable", 2, 3, "Trace_tri_unstable.cfg", 800, 150),
+                         G("syn", "sq", "stable", 4, 5, "Trace_sq_stable.cfg", 600, 220),
+                         G("syn", "sq", "randomized", 4, 5, "Trace_sq_randomized.cfg", 600, 220),
+                         G("e2e", "sq", "stable", 2, 1, "Trace_sq_e2e_stable.cfg", 300, 250, 4),
+                         G("e2e", "sq", "randomized", 2, 1, "Trace_sq_e2e_randomized.cfg", 150, 250, 4),
+                         G("e2e", "sq", "stable", 4, 5, "Trace_sq_stable.cfg", 100, 500, 10)]
+
+
+def items_of(g, seed):
+  if g["kind"] == "syn":
+    return [(seed * 100003 + i, g["uni"], g["mode"], g["P"], g["W"], g["steps"]) for i in range(g["n"])]
+  return [(seed * 100003 + 50000 + i, g["mode"], g["P"], g["W"], g["lt"], g["steps"]) for i in range(g["n"])]
 
 
 def validate_tlc(grp, traces):
   """TLC decides (thread-safe: touches no check state)"""
-  cfg = grp[4]
+  cfg = grp["cfg"]
   controls = []
   for how in ("flip", "drop", "tree"):
     for t in traces:
@@ -263,30 +280,32 @@ def validate_tlc(grp, traces):
 
 
 def account(ctx, grp, traces, items, r, rej, ncontrols):
-  uni, mode, P, W, cfg, _, _ = grp
+  uni, mode, cfg = grp["uni"], grp["mode"], grp["cfg"]
   bad = 0
   for t, matched in sorted(rej):
     if t >= len(traces):
       continue
     bad += 1
     e = traces[t][matched]
-    sig = dict(action=e["a"], via="trace", mode=mode, universe=uni)
+    sig = dict(action=e["a"], via="trace" if grp["kind"] == "syn" else "e2e-trace", mode=mode, universe=uni)
     if e["a"] == "PortEv":
       sig["k"] = e["args"]["k"]
     if e["a"] == "LinkEv":
       sig["add"] = e["args"]["add"]
     if e["obs"]["err"]:
       sig["err"] = e["obs"]["err"][:60]
-    ctx.report(sig, dict(kind="trace", arg=list(items[t]), cfg=cfg, trace=traces[t][:matched + 1],
+    ctx.report(sig, dict(kind="trace", group=grp, arg=list(items[t]), cfg=cfg, trace=traces[t][:matched + 1],
                          failing_step=matched, note="TLC rejected the history at this event"))
   ctx.traces += len(traces)
   for t in traces:
     ctx.case(core.fp([[e["a"], e["args"]] for e in t]), sample=None)
-  ctx.add_model("TraceForest %s (%d implementation histories, %d events)" %
-                (cfg, len(traces), sum(len(t) for t in traces)), r)
+  ctx.add_model("TraceForest %s (%d %s implementation histories, %d events)" %
+                (cfg, len(traces), grp["kind"], sum(len(t) for t in traces)), r)
   return dict(histories=len(traces), events=sum(len(t) for t in traces), rejected=bad,
               negative_controls_rejected=ncontrols,
-              batches=sum(len(e["obs"]["sent"]) for t in traces for e in t))
+              batches=sum(len(e["obs"]["sent"]) for t in traces for e in t),
+              link_timeouts=sum(1 for t in traces for e in t if e["a"] == "LinkEv" and not e["args"]["add"]),
+              disconnects=sum(1 for t in traces for e in t if e["a"] == "Disconnect"))
 
 
 def validate_group(ctx, grp, traces, items):
@@ -390,18 +409,16 @@ def run(ctx):
                    "tree"])
   # ---- code -> spec
   groups = TRACE_GROUPS_QUICK if quick else TRACE_GROUPS_THOROUGH
-  items = []
-  for uni, mode, P, W, cfg, ntr, nsteps in groups:
-    items += [(s * 100003 + i, uni, mode, P, W, nsteps) for i in range(ntr)]
-  traces = core.run_driver("props.X10:drive", items)
+  per = []
+  for g in groups:
+    items = items_of(g, s)
+    fn = "props.X10:drive" if g["kind"] == "syn" else "harness.x10_e2e:drive_e2e"
+    per.append((items, core.run_driver(fn, items)))
   lap("drive")
-  def sel(grp):
-    return [i for i, it in enumerate(items) if (it[1], it[2]) == (grp[0], grp[1])]
   with concurrent.futures.ThreadPoolExecutor(max_workers=4) as ex:
-    outs = list(ex.map(lambda g: validate_tlc(g, [traces[i] for i in sel(g)]), groups))
-  for grp, (r, rej, nc) in zip(groups, outs):
-    ix = sel(grp)
-    ctx.notes["trace_" + grp[4][6:-4]] = account(ctx, grp, [traces[i] for i in ix], [items[i] for i in ix], r, rej, nc)
+    outs = list(ex.map(lambda k: validate_tlc(groups[k], per[k][1]), range(len(groups))))
+  for g, (items, traces), (r, rej, nc) in zip(groups, per, outs):
+    ctx.notes["trace_%s_%s" % (g["kind"], g["cfg"][6:-4])] = account(ctx, g, traces, items, r, rej, nc)
   lap("validate")
   model_check_finish(ctx, started)
   lap("model_checking_done")
@@ -412,7 +429,8 @@ def replay_one(ctx, rep):
   if rep.get("kind") != "trace":
     core.replay(ctx, rep["adapter"], [rep["behaviour"]], params=rep.get("params"), procs=1)
     return
+  g = rep["group"]
   arg = tuple(rep["arg"])
-  traces = core.run_driver("props.X10:drive", [arg], procs=1)
-  grp = [g for g in TRACE_GROUPS_THOROUGH if g[4] == rep["cfg"]][0]
-  validate_group(ctx, grp, traces * 3, [arg] * 3)
+  fn = "props.X10:drive" if g["kind"] == "syn" else "harness.x10_e2e:drive_e2e"
+  traces = core.run_driver(fn, [arg, arg, arg], procs=1)
+  validate_group(ctx, g, traces, [arg] * 3)
